@@ -19,3 +19,5 @@ def check(ctx: Ctx) -> None:
     CT.r_parser_config(ctx, "R17.12")
     # the reply is exactly the text the command wrote: the buffer starts every command empty and rewound
     CT.r_buffer(ctx, "R17.13")
+    # the command line the session parses is the text the client typed: one codec on both sides of the wire
+    CT.r_wire_codec(ctx, "R17.14")
